@@ -34,11 +34,13 @@ def needs(notes, name=''):
     return ' '.join(m.group(1).split())[:1500] if m else ''
 
 
-for d in sorted(glob.glob(os.path.join(HERE, 'seeded', '*-m*'))):
+for d in sorted(glob.glob(os.path.join(HERE, 'seeded', 'C[0-9][0-9]-*'))):
     name = os.path.basename(d)
     prop = name.split('-')[0]
     notes = open(os.path.join(d, 'notes.md')).read() if os.path.exists(os.path.join(d, 'notes.md')) else ''
     title = notes.strip().splitlines()[0].lstrip('# ').strip() if notes.strip() else ''
+    if not title or title.startswith('**') or title.lower().startswith('change'):
+        title = (section(notes, 'Change') or title).split('. ')[0][:160]
     r = results.get(name, {})
     caught = r.get('exit') == 1 and any(v.startswith('VIOLATION') for v in r.get('violations', []))
     meta = dict(
